@@ -216,7 +216,7 @@ theorem same_value_mutator_silent (ts : TState) (recv : Nat) (e : Entry) (hg : e
     applyMut ts recv e true = ts := by
   unfold applyMut; simp [hg]
 
-/-- A plain guarded setter (`targets = [self]`, nothing relayed, no tree effect — 40 of the table's 108 entries) IS the
+/-- A plain guarded setter (`targets = [self]`, nothing relayed, no tree effect — 40 of the table's 111 entries) IS the
 `guardedSet` of M-Dirty on the receiver's chain: its silence is `same_value_silent`, its propagation is
 `change_propagates`. -/
 theorem plain_setter_is_guardedSet (ts : TState) (recv : Nat) (e : Entry) (hg : e.guarded = true) (ht : e.targets = [.self])
@@ -386,7 +386,7 @@ example :
 example : (setter .glyph "width").guarded = true ∧ (setter .glyph "width").targets = [.self] ∧
     (setter .glyph "width").relay = .none ∧ (setter .glyph "width").effs = [] := by decide
 /-- the extractor decides targets, guards and relays of the whole table -/
-example : (table.filter decided).length = 108 ∧ table.length = 108 := by decide +kernel
+example : (table.filter decided).length = 111 ∧ table.length = 111 := by decide +kernel
 
 end tree
 
